@@ -924,13 +924,13 @@ pub fn property() -> Property {
             "the negation overflow for priority i32::MIN is only observable when the engine is compiled with overflow checks (profile `strict`)".into(),
         ],
         parts: vec![
-            Part { name: "agenda", run: run_agenda, quick: Budget::Random { cases: 1_000_000, bytes: 200 }, thorough: Budget::Random { cases: 30_000_000, bytes: 200 }, min_nontrivial_pct: 30 },
+            Part { name: "agenda", run: run_agenda, quick: Budget::Random { cases: 5_000_000, bytes: 200 }, thorough: Budget::Random { cases: 30_000_000, bytes: 200 }, min_nontrivial_pct: 30 },
             Part { name: "agendaExh4", run: run_agenda, quick: Budget::Exhaustive { param: 4 }, thorough: Budget::Exhaustive { param: 4 }, min_nontrivial_pct: 0 },
             Part { name: "agendaExh5", run: run_agenda, quick: Budget::Exhaustive { param: 5 }, thorough: Budget::Exhaustive { param: 5 }, min_nontrivial_pct: 0 },
             Part { name: "agendaExh6", run: run_agenda, quick: Budget::Skip, thorough: Budget::Exhaustive { param: 6 }, min_nontrivial_pct: 0 },
-            Part { name: "termIncr", run: run_term_incr, quick: Budget::Random { cases: 3_000, bytes: 64 }, thorough: Budget::Random { cases: 150_000, bytes: 64 }, min_nontrivial_pct: 20 },
-            Part { name: "termTyped", run: run_term_typed, quick: Budget::Random { cases: 20_000, bytes: 64 }, thorough: Budget::Random { cases: 2_000_000, bytes: 64 }, min_nontrivial_pct: 4 },
-            Part { name: "termUl", run: run_term_ul, quick: Budget::Random { cases: 20_000, bytes: 64 }, thorough: Budget::Random { cases: 2_000_000, bytes: 64 }, min_nontrivial_pct: 20 },
+            Part { name: "termIncr", run: run_term_incr, quick: Budget::Random { cases: 20_000, bytes: 64 }, thorough: Budget::Random { cases: 150_000, bytes: 64 }, min_nontrivial_pct: 20 },
+            Part { name: "termTyped", run: run_term_typed, quick: Budget::Random { cases: 200_000, bytes: 64 }, thorough: Budget::Random { cases: 2_000_000, bytes: 64 }, min_nontrivial_pct: 4 },
+            Part { name: "termUl", run: run_term_ul, quick: Budget::Random { cases: 200_000, bytes: 64 }, thorough: Budget::Random { cases: 2_000_000, bytes: 64 }, min_nontrivial_pct: 20 },
         ],
         watchdog: true,
         replay_reps: 25,
